@@ -263,6 +263,10 @@ structure Fn where
   /-- go/ssa emitted no `RunDefers` before the function's `return` (its only defers are in range-over-func bodies) and
       `cl/compile.go` adds one (`returnNeedsImplicitRunDefers`) AFTER the results were evaluated -/
   implicitRun : Bool := false
+  /-- defer sites the compiler silently drops: explicit-stack defers of a range-over-func body inside an INSTANCE of a
+      generic function (`deferStackOwner` walks past the synthetic "instance of" function to nil, `DeferTo` falls back
+      to `Builder.Defer` in the yield closure, which has no recover block, so `getDefer` returns nil) -/
+  dropped : List Nat := []
   deriving DecidableEq, Repr, Inhabited
 
 structure Prog where
@@ -322,6 +326,9 @@ inductive Flag
   | staleFrame         -- a `siglongjmp` targeted a frame that is no longer on the stack
   | regResult          -- (-O2) a named result kept in a register reverted to its value at `sigsetjmp`
   | resultBeforeRun    -- the results of a `return` were read before the implicit `RunDefers` ran a closure that changed them
+  | droppedDefer       -- a defer statement the compiler dropped was executed
+  | frameInitSkipped   -- a defer statement ran before the in-place frame set-up of a `DeferAlways` statement that does not dominate it
+  | nodesLeft          -- the replay completed and left nodes on the list (deferred calls that never ran)
   | recoverIndirect    -- spec: `recover()` not called directly by a deferred function while a panic is in flight
   | nestedRecover      -- spec: a panic was recovered while an older panic is still in flight
   deriving DecidableEq, Repr
@@ -457,6 +464,11 @@ def runBody (cfg : Cfg) (callFn : CallFn) (f : Fn) (upId : Option Nat) :
     let l := st.loc a.id
     match ev with
     | .defer k args =>
+      if f.dropped.contains k then runBody cfg callFn f upId rest a (st.flag .droppedDefer) else
+      -- first compiled defer is `DeferAlways`: the frame is set up in place, in ITS block. A defer statement that runs
+      -- before it (its block is not dominated by that block) uses the frame pointer before it exists.
+      if a.fr.isNone && k != 0 && (f.stmts.head?.map (·.kind == .always)).getD false then
+        (a, st.flag .frameInitSkipped, .esc .ub) else
       let (a, st) := if a.fr.isNone then setupFrame a st else (a, st)   -- first `DeferAlways`: frame set up in place
       let s := f.stmts.getD k default
       let pay : Pay := ⟨s.fn, a.id, args.map (evalArg l)⟩
@@ -522,6 +534,9 @@ def finish (cfg : Cfg) (callFn : CallFn) (f : Fn) (a : Act) (st : MSt) (be : Bod
       let r0 := (st.loc a.id).r      -- operands of `Return`, evaluated before an implicit `RunDefers`
       let (u, fin) := unwind f.stmts (execCall cfg callFn f a) fr st landed
       let st := orderFlag a u.log u.st
+      let st := match fin, u.args with
+        | .completed, _ :: _ => st.flag .nodesLeft
+        | _, _ => st
       match fin with
       | .escaped e => (st, .esc e)
       | .completed =>
